@@ -253,8 +253,11 @@ theorem checkField_shape (relaxed : Bool) (st : ClState) (seen : List Bytes) (v 
         simp only [Bool.not_true, Bool.false_eq_true, if_false]
         have hns := loop_needsSan true (v.length + 1) { st with needsSanitizing := true } v rfl
         have hvo := loop_valueOk true (v.length + 1) { st with needsSanitizing := true } v h.1
-        refine ⟨⟨hvo, ?_⟩, fun _ => Or.inr hns, by simp⟩
-        intro _ hn; rw [hns] at hn; exact absurd hn (by simp)
+        split
+        · refine ⟨⟨hvo, ?_⟩, fun _ => Or.inl rfl, by simp⟩
+          intro hb; simp at hb
+        · refine ⟨⟨hvo, ?_⟩, fun _ => Or.inr hns, by simp⟩
+          intro _ hn; rw [hns] at hn; exact absurd hn (by simp)
     · have hc' : v.contains 44 = false := by simpa using hc
       simp only [hc', Bool.false_eq_true, if_false]
       have hvo := checkValue_valueOk relaxed st v [] h.1
